@@ -6,7 +6,7 @@ props = [json.loads(l) for l in open(os.path.join(ROOT, "properties.jsonl"))]
 plans = {}
 for p in sorted(glob.glob(os.path.join(ROOT, "props", "c*", "plan.json"))):
     d = json.load(open(p))
-    if d.get("claimed", True):
+    if d.get("claimed", False):
         plans[d["property"]] = d
 checks, na = [], []
 for pr in props:
